@@ -166,6 +166,24 @@ def with_introspection(rng: random.Random, src: str) -> str:
     return '\n'.join(INTROSPECT_PRELUDE + lines) + '\n'
 
 
+def stress(rng: random.Random, nthreads: int, ncalls: int, nprints: int) -> tuple[str, dict]:
+    """Threads that make trace calls and print at the same time, all started together: with a tiny thread-switch interval the
+    interpreter switches between them at (almost) every bytecode boundary of the trace machinery.  Lines are assembled from
+    partial writes.  Returns (source, owners)."""
+    lines = ['import sys, threading', '', 'def ident(i):', '    return i', '']
+    owners: dict = {}
+    for t in range(nthreads):
+        parts = rng.choice([2, 3, 4])
+        lines += [f'def stress_body_{t}():', f'    for i in range({ncalls}):', '        ident(i)',
+                  f'    for i in range({nprints}):']
+        lines += [f"        sys.stdout.write('S{t}.')"] + [f"        sys.stdout.write('%d:' % i)" for _ in range(parts - 2)] + ["        sys.stdout.write('%d\\n' % i)"]
+        lines += ['']
+        owners[f'S{t}'] = f'stress_body_{t}'
+    lines += ['ths = [' + ', '.join(f'threading.Thread(target=stress_body_{t})' for t in range(nthreads)) + ']',
+              'for t in ths:', '    t.start()', 'for t in ths:', '    t.join()', "print('main done')"]
+    return '\n'.join(lines) + '\n', owners
+
+
 def concurrent(rng: random.Random, nthreads: int, ntasks: int, nested: bool = False, pool: bool = False) -> tuple[str, dict]:
     """A program with distinct worker functions per thread / task. Returns (source, {entity tag: function name}).
     With `pool`, the tasks also hand work to executor threads (`asyncio.to_thread`), which are reused."""
